@@ -364,7 +364,7 @@ pub mod verif {
 	static STAMP: std::sync::atomic::AtomicBool = std::sync::atomic::AtomicBool::new(false);
 	static NEXT_ID: std::sync::atomic::AtomicUsize = std::sync::atomic::AtomicUsize::new(1);
 
-	/// When on, every event made from a watcher notification gets a sequence number (metadata
+	/// When on, every event made by a source (watcher notification, signal, keyboard) gets a sequence number (metadata
 	/// `verif-id`, numbering restarts at 1) and a trace point just before it is sent to the queue.
 	pub fn stamp_events(on: bool) {
 		use std::sync::atomic::Ordering::SeqCst;
@@ -372,7 +372,7 @@ pub mod verif {
 		STAMP.store(on, SeqCst);
 	}
 
-	pub(super) fn stamp(event: &mut watchexec_events::Event) -> usize {
+	pub(crate) fn stamp(event: &mut watchexec_events::Event) -> usize {
 		use std::sync::atomic::Ordering::SeqCst;
 		if !STAMP.load(SeqCst) {
 			return 0;
